@@ -26,6 +26,7 @@ Pattern(p, k) ==
 Patterns == 1..5
 Zeros(k) == [i \in 1..k |-> 48]
 \* exponent magnitudes (as digit bytes) around every bound the code tests, the clamp, and word sizes
+ExpMagsFew == {<<48>>, <<50, 50>>, <<51, 48, 56>>, <<51, 50, 52>>, <<51, 52, 56>>, <<57, 57, 57, 57>>, <<49, 48, 48, 48, 48>>, <<50, 49, 52, 55, 52, 56, 51, 54, 52, 56>>}
 ExpMagsAll == {<<48>>, <<49>>, <<49, 53>>, <<49, 54>>, <<50, 50>>, <<50, 51>>, <<51, 55>>, <<51, 56>>, <<50, 57, 48>>, <<51, 48, 56>>, <<51, 48, 57>>, <<51, 49, 48>>, <<51, 50, 52>>, <<51, 50, 53>>, <<51, 51, 48>>, <<51, 52, 51>>, <<51, 52, 55>>, <<51, 52, 56>>, <<51, 52, 57>>, <<51, 54, 48>>, <<52, 48, 48>>, <<57, 57, 57, 57>>, <<49, 48, 48, 48, 48>>, <<57, 57, 57, 57, 57>>, <<49, 48, 48, 48, 48, 48>>, <<50, 49, 52, 55, 52, 56, 51, 54, 52, 56>>, <<49, 56, 52, 52, 54, 55, 52, 52, 48, 55, 51, 55, 48, 57, 53, 53, 49, 54, 49, 54>>}
 
 Extend(bytes) == /\ lit' = lit \o bytes
@@ -44,7 +45,10 @@ FracPart == /\ ph = "afterint"
             /\ ph' = "afterfrac"
 ExpStyles == { <<<<101>>, 0>>, <<<<69, 43>>, 0>>, <<<<101, 45>>, 0>>, <<<<69, 45>>, 3>>, <<<<101, 43>>, 1>> }
 ExpPart == /\ ph \in {"afterint", "afterfrac"}
-           /\ \E st \in ExpStyles, m \in ExpMagsAll : Extend(st[1] \o Zeros(st[2]) \o m)
+           \* every magnitude in the plain spelling and with a minus sign, a few in the other spellings
+           /\ \E st \in ExpStyles, m \in ExpMagsAll :
+                /\ (st[1] \in {<<101>>, <<101, 45>>} \/ m \in ExpMagsFew)
+                /\ Extend(st[1] \o Zeros(st[2]) \o m)
            /\ ph' = "done"
 Finish == /\ ph \in {"afterint", "afterfrac"}
           /\ ph' = "done"
@@ -74,7 +78,15 @@ Class ==
          Cmp(M, P52), Cmp(M, Pow2(53)), Cmp(M, Pow2(63)) >= 0, Bucket(f.exp, ExpBounds),
          Cmp(M, E15), f.exp > 22 /\ f.exp <= 37 /\ Cmp(MulPow10(M, f.exp - 22), E15) <= 0,
          sc.sawdot, sc.hasexp, sc.esign, sc.clamped, sc.e >= 10000,
-         IF v.ds = <<>> THEN -1 ELSE Bucket(Len(v.ds) + v.E, MagBounds), Tiers(f)>>
+         IF v.ds = <<>> THEN -1 ELSE Bucket(Len(v.ds) + v.E, MagBounds), Tiers(f),
+         \* which side of the two result thresholds: half the smallest subnormal (2^-1075), the smallest normal
+         \* (2^-1022), and the overflow threshold
+         IF v.ds = <<>> THEN 0 ELSE LET mag == Len(v.ds) + v.E  D == FromDigits(v.ds) IN
+            IF mag < -330 THEN -2 ELSE IF mag > 310 THEN 4
+            ELSE IF mag >= 308 THEN (IF Overflow(v) THEN 3 ELSE 2)
+            ELSE IF mag >= -325 /\ mag <= -321 THEN <<CmpScaled(D, v.E, One, -1075), CmpScaled(D, v.E, <<3>>, -1075)>>
+            ELSE IF mag >= -309 /\ mag <= -306 THEN <<CmpScaled(D, v.E, One, -1022)>>
+            ELSE 1 >>
 View == Class
 Emit == (EmitStates /\ ph = "done") => PrintT(ToJson(<<"FLOATLIT", lit, SetToSeq(Tiers(Final(sc)))>>))
 =============================================================================
